@@ -321,8 +321,12 @@ fn gen_p(ctx: &Ctx, seed: u64, run_index: u64) -> PScn {
     let (mut text, b) = gen_valid_texts(&mut w, ctx.thorough(), run_index);
     let mut fired = Vec::new();
     let mut valid_input = true;
+    // fault class first: a hard or lifecycle fault tests little if the run ends at a corrupted input before the
+    // faulted call is reached, so 70 % of those runs keep their inputs and options valid
+    let class = y.below(20);
+    let force_valid = class >= 15 && y.chance(0.7);
     // hostile values for the metadata the CLI interprets (area, k_exp, location, RED1/RED2 factors)
-    if d.chance(0.15) {
+    if !force_valid && d.chance(0.15) {
         let key = *d.pick(&["CTE_RED1", "CTE_RED2", "CTE_AREAREF", "CTE_KEXP", "CTE_LOCALIZACION"]);
         let val = *d.pick(&[
             "", "1", "1, 2", "1, 2, 3, 4", "a, b, c", "NaN, NaN, NaN", "inf, 0, 0", "(1, 2", "{ ren: 1 }", "{ ren: 1, nren: x, co2 }", "1;2;3", "-1", "0",
@@ -332,7 +336,7 @@ fn gen_p(ctx: &Ctx, seed: u64, run_index: u64) -> PScn {
         fired.push(format!("components:hostile_metadata_{}", key));
         valid_input = false;
     }
-    let comp = match d.below(10) {
+    let comp = match if force_valid { 0 } else { d.below(10) } {
         0..=4 => Blob::Utf8(text),
         5 => {
             valid_input = false;
@@ -354,7 +358,8 @@ fn gen_p(ctx: &Ctx, seed: u64, run_index: u64) -> PScn {
         argv.push(if o.chance(0.03) { "missing.csv".into() } else { "in.csv".into() });
     }
     let n_before = fired.len();
-    match gen_factors_in(&mut w, &mut d, &b, &mut fired, true) {
+    let factors_in = if force_valid { FactorsIn::Loc(w.pick(&LOCS).to_string()) } else { gen_factors_in(&mut w, &mut d, &b, &mut fired, true) };
+    match factors_in {
         FactorsIn::Loc(l) => {
             if !o.chance(0.15) {
                 argv.push("-l".into());
@@ -374,7 +379,7 @@ fn gen_p(ctx: &Ctx, seed: u64, run_index: u64) -> PScn {
     if fired.len() != n_before {
         valid_input = false;
     }
-    let p_h = if o.chance(0.25) { 0.5 } else { 0.0 };
+    let p_h = if !force_valid && o.chance(0.25) { 0.5 } else { 0.0 };
     if p_h > 0.0 {
         valid_input = false;
     }
@@ -440,12 +445,22 @@ fn gen_p(ctx: &Ctx, seed: u64, run_index: u64) -> PScn {
     // fault plan
     let shape = predicted_shape(&argv, &image);
     let mut plan: Vec<PlanEntry> = Vec::new();
-    match y.below(20) {
+    match class {
         0..=7 => {}
         8..=14 => plan = worldp::benign_plan(&mut y, &shape, 0.35),
         15..=18 => {
             if let Some((e, _)) = worldp::hard_fault(&mut y, &shape) {
-                plan.push(e);
+                // a disk that fills up (or an I/O error) in the middle of a transfer: the call first moves only
+                // part of the data, the continuation then fails
+                let mid_transfer = matches!(e.kind, PlanKind::Err(_)) && y.chance(0.3);
+                let is_rw = shape.get(e.idx as usize).map(|t| t.call == "read" || t.call == "write").unwrap_or(false);
+                if mid_transfer && is_rw {
+                    let n = 1 + y.below(200);
+                    plan.push(PlanEntry { idx: e.idx, kind: PlanKind::Short(n) });
+                    plan.push(PlanEntry { idx: e.idx + 1, kind: e.kind.clone() });
+                } else {
+                    plan.push(e);
+                }
             }
         }
         _ => {
